@@ -72,6 +72,23 @@ UNITS['U08v'] = dict(
                  'assumed contract of an operator kernel (traits BinaryOp / CheckedBinaryOp with spec functions) - instantiated by U08k/U07k harnesses over the real kernels'],
     not_covered=['init()/inputs()/outputs() plumbing of the operators'])
 
+UNITS['U09v'] = dict(
+    kind='verus', tpl='contracts/U09v_aggregate.vx',
+    title='aggregate.rs: execute() of Aggregate, AggregateNullable, CheckedAggregate, CheckedAggregateNullable (generic over the aggregator and the grouping-key type)',
+    assumptions=['R6: scratchpad bindings lifted to parameters (A-planner: distinct BufferRefs do not alias)',
+                 'R5: grouping key type abstracted to trait GroupIndex { cast_usize }; R4: Vec::resize replaced by verified vx_resize / vx_resize_bitmap (growing case)',
+                 'assumed contracts of Aggregator / CheckedAggregator kernels (spec_unit, spec_acc, spec_acc_checked) - the real kernels are proved in U09k',
+                 'precondition grouping[i] <= max_index is established by the planner (not checked here)'],
+    not_covered=[])
+
+UNITS['U09m'] = dict(
+    kind='verus', tpl='contracts/U09m_merge_aggregate.vx',
+    title='merge_aggregate.rs: merge_aggregate (generic over T: Combinable<T>) against a recursive spec incl. error propagation',
+    assumptions=['assumed contract of Combinable::combine (spec_combine) - the real i64 implementation is proved in U09k',
+                 'R9: slice::to_vec replaced by verified vx_to_vec; R3: error! logging dropped',
+                 'ops well-formedness (indices in range, MergeRight never first) is what merge_deduplicate guarantees (U10 consumes-all / merge-right-is-duplicate)'],
+    not_covered=['Combinable<OrderedFloat<f64>> (floating point)'])
+
 UNITS['U09k'] = dict(
     kind='kani', crate='kani/U09', needs_lock=True,
     title='aggregate.rs / merge_aggregate.rs: SumI64, Count, MaxI64, MinI64 accumulate/combine and Combinable<i64>::combine (complete)',
@@ -134,16 +151,16 @@ UNITS['U12k'] = dict(
     not_covered=['Comparator<Option<OrderedFloat<f64>>> for CmpGreaterThan: not instantiated by the planner (design-time probe H7); reported, not claimed'])
 
 PROPS = {
-    'C02': dict(level='proof', units=['U10', 'U09k', 'U13k'],
+    'C02': dict(level='proof', units=['U10', 'U09k', 'U09m', 'U13k'],
                 level_text='Verus proofs of the merge kernels that combine per-partition results (sorted, provenance, left-biased, nothing skipped), complete Kani proofs of cross-partition aggregate combination and limit arithmetic',
                 level_note='per-partition planning, executor streaming, disk read scheduling and thread count are glue and not covered: the check catches a broken merge/combine primitive, not a broken plan',
                 technique='contract-based deductive verification (Verus + Kani complete harnesses) of extracted functions',
                 assumptions=[], not_covered=['executor stage partitioning / streaming', 'batch_merging::combine plan construction', 'disk read scheduler']),
-    'C04': dict(level='proof', units=['U09k', 'U10', 'U01'],
+    'C04': dict(level='proof', units=['U09k', 'U09v', 'U09m', 'U10', 'U01'],
                 level_text='complete Kani proofs of accumulate/combine kernels; Verus proofs of dedup-merge / merge_drop / merge_keep kernels and bitmap primitives',
                 level_note='grouping-key construction, hash-map grouping and the final pass are not covered',
                 technique='contract-based deductive verification (Verus + Kani complete harnesses) of extracted functions',
-                assumptions=[], not_covered=['hashmap_grouping*', 'try_bitpacking (float log2)', 'Aggregate*::execute loops (pending)']),
+                assumptions=[], not_covered=['hashmap_grouping*', 'try_bitpacking (float log2)']),
     'C05': dict(level='proof', units=['U10', 'U11', 'U12k', 'U13k'],
                 level_text='Verus proof of merge (sorted, stable, limit), complete Kani proofs of integer/float comparators and LIMIT/OFFSET window arithmetic; string comparators bounded',
                 level_note='std sort_by/sort_unstable_by, the top-n driver and the planner choice between sort and top-n are not covered',
@@ -154,7 +171,7 @@ PROPS = {
                 level_note='compile_expr glue, LIKE/regex, string dictionary comparisons not covered yet',
                 technique='contract-based deductive verification (Kani complete harnesses + Verus) of extracted / path-included real code',
                 assumptions=[], not_covered=[]),
-    'C06': dict(level='proof', units=['U08k', 'U08v', 'U09k'],
+    'C06': dict(level='proof', units=['U08k', 'U08v', 'U09k', 'U09v', 'U09m'],
                 level_text='complete (loop-free, full-domain) Kani proofs of the checked arithmetic kernels',
                 level_note='planner choice of checked vs unchecked node is not covered',
                 technique='contract-based deductive verification (Kani complete harnesses) of the real operator file',
